@@ -2,12 +2,12 @@ package c05
 
 // C05 / C06 correspondence + monitors on the REAL in-process fxcore app.
 //
-//   - real crosschain keepers (eth, bsc) with two registered bridge tokens each, four funded users, one bonded
-//     oracle holding all the power;
+//   - real crosschain keepers (eth, bsc, tron) with three registered bridge tokens each, four funded users, THREE bonded
+//     oracles (round 5; none reaches the quorum alone) each submitting its own claim;
 //   - user operations go through the real message servers (ValidateBasic, then MsgServer in a cache context that is
 //     committed only on success, as baseapp does for a transaction);
-//   - an external event is observed through the real path MsgClaim -> Attest -> TryAttestation (single oracle =>
-//     quorum at once), i.e. processAttestation + cleanupTimedOutBatches + cleanupTimeOutBridgeCall run exactly as in
+//   - an external event is observed through the real path MsgClaim -> Attest -> TryAttestation, one claim per oracle
+//     (`obs`: all report the same claim; `vote`: one oracle on its own, possibly deviating), i.e. processAttestation + cleanupTimedOutBatches + cleanupTimeOutBridgeCall run exactly as in
 //     production; pending bridge-call results are applied with keeper.ExecuteClaim (what the executeClaim precompile calls);
 //   - fxcore height is moved with ctx.WithBlockHeight and the keeper's real EndBlocker runs at the new height (the signed
 //     window is set far beyond every height reached, so the slashing part of EndBlocker is idle: slashing is C07/C13);
@@ -2586,7 +2586,7 @@ func TestC05(t *testing.T) {
 	seed := hx.Seed()
 	rng := rand.New(rand.NewSource(seed))
 	out := hx.NewOut()
-	defer out.Close("correspondence: real eth/bsc crosschain keepers (message servers in a tx cache context; observation through MsgClaim->Attest->TryAttestation with one oracle; ExecuteClaim; the keeper's real EndBlocker on every block op) vs Lean model, full state compared after every op: result, id counters, pool IN STORE ITERATION ORDER, batches with transfers, bridge calls, pending results, observed heights, balances of 4 actors x 3 tokens, and the admissibility verdict of the external-chain ghost (Lean `admissible` vs the harness' own); monitors on real state: partition, fresh ids, settled once, executed-never-refunded, refund amounts and recipients, per-token conservation, cancel only by sender, fee increase exact, pick = fee-descending prefix, cancelled batch restores pool, nothing leaves a batch/the store except at an observation, release only at observed height >= timeout, an execution cancels only what it supersedes, nothing batched before an observation, every event the bridge contract can produce finds its record (external-chain ghost from FxBridgeLogic.sol rules). non-trivial = distinct final-state shapes")
+	defer out.Close("correspondence: real eth/bsc crosschain keepers (message servers in a tx cache context; observation through MsgClaim->Attest->TryAttestation with THREE oracles voting with their own claims (all alike, or one deviating in height / content); ExecuteClaim; the keeper's real EndBlocker on every block op) vs Lean model, full state compared after every op: result, id counters, pool IN STORE ITERATION ORDER, batches with transfers, bridge calls, pending results, observed heights, balances of 4 actors x 3 tokens, and the admissibility verdict of the external-chain ghost (Lean `admissible` vs the harness' own); monitors on real state: partition, fresh ids, settled once, executed-never-refunded, refund amounts and recipients, per-token conservation, cancel only by sender, fee increase exact, pick = fee-descending prefix, cancelled batch restores pool, nothing leaves a batch/the store except at an observation, release only at observed height >= timeout, the observed height reported by a quorum, a vote without a quorum changes nothing, an execution cancels only what it supersedes, nothing batched before an observation, every event the bridge contract can produce finds its record (external-chain ghost from FxBridgeLogic.sol rules). non-trivial = distinct final-state shapes")
 
 	s := hx.NewSuite(t, 1)
 	envs := []*env{setupChain(t, s, "eth", s.App.EthKeeper), setupChain(t, s, "bsc", s.App.BscKeeper), setupChain(t, s, "tron", s.App.TronKeeper)}
